@@ -1,7 +1,7 @@
 (* C17 -- supergate decomposition.  Statements only; proofs in Proofs/SupergatesProofs.v.
    L is the fan-in-limited circuit limit_fanin(c, 2) the code works on (recorded by the harness; C05 is about it). *)
 From stdpp Require Import strings gmap sets.
-From CG Require Import Base.Cases Base.Oracle Model.Supergates Proofs.SupergatesProofs.
+From CG Require Import Base.Cases Base.Oracle Model.Supergates Proofs.SupergatesProofs Proofs.SupergatesDom.
 Open Scope string_scope.
 
 (* The property as a statement about the model (DESIGN.md appendix C).  NOT proved: that in the dominator-tree
@@ -66,6 +66,24 @@ Proof.
 Qed.
 Print Assumptions C17_construction_partial.
 
+(* ---- the shape clause in full for the model: gates keep their WHOLE fan-in (a grown supergate is closed under fan-in
+   except at its inputs).  Dominator-tree argument over least closed sets: an operand of a gate is a tree child or a tree
+   sibling of the gate; with at most two operands a gate that does not dominate one of its operands has at most one tree child. ---- *)
+Definition wf_lim (L : circuit) : Prop :=
+  closed L ∧ acyclic L ∧
+  ∀ n i, L !! n = Some i → size (n_fi i) ≤ 2 ∧ (is_const (n_ty i) = true → n_fi i = ∅).
+Theorem C17_shape : ∀ L sgs, wf_lim L → supergates L = Ok sgs →
+  Forall (λ sg, size (outputs (c_g sg)) = 1 ∧
+                ∀ n, n ∈ gates (c_g sg) → n_ty <$> c_g sg !! n = n_ty <$> L !! n ∧ fanin (c_g sg) n = fanin L n) sgs.
+Proof.
+  intros L sgs (Hcl & [rank Hrank] & Hb) H.
+  pose proof (supergates_gate_wiring _ _ H) as H2. pose proof (supergates_single_output _ _ H) as H3.
+  pose proof (supergates_fanin_eq L rank Hcl Hrank (λ n i Hi, proj1 (Hb n i Hi)) (λ n i Hi, proj2 (Hb n i Hi)) sgs H) as H4.
+  rewrite Forall_forall in H2, H3, H4 |- *. intros sg Hsg. split; [apply (H3 sg Hsg)|]. intros n Hn.
+  split; [apply (H2 sg Hsg n Hn)|apply (H4 sg Hsg n Hn)].
+Qed.
+Print Assumptions C17_shape.
+
 (* the order clause for the list the MODEL returns (Kahn rounds over the dependency relation the code hands to
    networkx.topological_sort); the implementation's own order is not modelled and is judged per run by check_topo *)
 Theorem C17_model_order_partial : ∀ L sgs, supergates L = Ok sgs →
@@ -89,6 +107,11 @@ Qed.
 Example C17_example_spec : ∃ sgs, supergates ex_shared = Ok sgs ∧ sg_spec ex_shared sgs.
 Proof.
   destruct C17_example_decomposition as (sgs & H1 & _ & H2). exists sgs. split; [exact H1|]. apply check_all_sound. exact H2.
+Qed.
+Example C17_example_wf : wf_lim ex_shared.
+Proof.
+  split; [apply closedb_spec; vm_compute; reflexivity|]. split; [apply acyclicb_sound; vm_compute; reflexivity|].
+  apply map_Forall_lookup. apply (bool_decide_unpack _). vm_compute. exact I.
 Qed.
 (* the checkers reject: dropping the shared supergate breaks the cover clause *)
 Example C17_example_reject : ∃ sgs, supergates ex_shared = Ok sgs ∧
